@@ -62,6 +62,10 @@ def invariant_def(f=None, **kw):
     return None
 
 
+def ghost_at(*a, **k):
+    return lambda f: None
+
+
 def implies(a, b):
     return (not a) or b
 
@@ -128,6 +132,17 @@ class LoopSpec:
         self.lets = []
 
 
+class GhostAt:
+    def __init__(self, target, after, nth, contract, node):
+        self.target = target
+        self.after = after
+        self.nth = nth
+        self.contract = contract
+        self.calls = []
+        self.lets = []
+        self.node = node
+
+
 class Lemma:
     def __init__(self, name, node, params, decreases):
         self.name = name
@@ -169,6 +184,7 @@ class Specs:
         self.loops = {}
         self.lemmas = {}
         self.invdefs = {}
+        self.ghost_ats = {}       # target -> [GhostAt]
         self.consts = {}
         self.module_ctx = None
         self.sources = {}
@@ -200,6 +216,18 @@ class Specs:
                     self._load_loop(node, dargs, dkw)
                 elif dname == 'lemma':
                     self._load_lemma(node, dkw)
+                elif dname == 'ghost_at':
+                    g = GhostAt(ast.literal_eval(dargs[0]), ast.unparse(ast.parse(ast.literal_eval(dkw['after'])).body[0]),
+                                ast.literal_eval(dkw['nth']) if 'nth' in dkw else 0,
+                                ast.literal_eval(dkw['contract']) if 'contract' in dkw else None, node)
+                    for st in node.body:
+                        if isinstance(st, ast.Expr) and isinstance(st.value, ast.Constant):
+                            continue
+                        if isinstance(st, ast.Assign):
+                            g.lets.append((st.targets[0].id, st.value))
+                        else:
+                            g.calls.append(st.value)
+                    self.ghost_ats.setdefault(g.target, []).append(g)
                 elif dname == 'invariant_def':
                     self._load_spec(node, dkw, table=self.invdefs)
             elif isinstance(node, ast.Assign) and len(node.targets) == 1 and isinstance(node.targets[0], ast.Name):
